@@ -376,3 +376,11 @@ Definition res_le (x y : top_res) : Prop :=
   | TCnt n, TCnt n' => n <= n'
   | _, _ => False
   end.
+
+(* ---------------------------------------------------------------- Part 9: which ids are "old" *)
+(* the time at which an id was orphaned (None: it is not in the orphanage) *)
+Definition orphaned_since (t : thmap) (sid : N) : option N := aget sid (ot_orphans (th_ot t)).
+(* the orphaned ids whose orphaning lies more than [old_age_ns] back at clock [now] (with the code's
+   boundary: exactly [old_age_ns] back counts too, except for id 32767) *)
+Definition old_ids (t : thmap) (now : N) : list N :=
+  map fst (filter (fun e => is_old (now - old_age_ns) (snd e, fst e)) (ot_orphans (th_ot t))).
